@@ -189,7 +189,8 @@ def check_table(ctx, case):
 
 
 MALFORMED = ['cov_asym_tiny', 'cov_asym_9th_digit', 'cov_grad_neg', 'cov_grad_indef', 'cov_grad_asym', 'cov_neg', 'dup_names', 'nonstring_name', 'unsorted_idl', 'dup_idl', 'len_mismatch', 'too_few', 'multi_ens', 'len_names',
-             'len_idl', 'decreasing_range', 'cov_pipe', 'cov_asym', 'cov_indef', 'descending_list', 'ok_control']
+             'len_idl', 'decreasing_range', 'cov_pipe', 'cov_asym', 'cov_indef', 'descending_list', 'ok_control',
+             'multi_ens_prefix', 'multi_ens_prefix_rev', 'multi_ens_word', 'multi_ens_nosuffix', 'multi_ens_dot', 'multi_ens_bare_first', 'merge_multi_ens', 'ok_control_rep10']
 
 
 def check_malformed(ctx, case):
@@ -212,6 +213,21 @@ def check_malformed(ctx, case):
         samples = [x[:4], x]
     elif k == 'multi_ens':
         names = ['A|r1', 'B|r1']
+    # ensemble identifiers (the text before '|') one of which is a prefix of the other are still different ensembles
+    elif k == 'multi_ens_prefix':
+        names = ['A1|r1', 'A10|r1']
+    elif k == 'multi_ens_prefix_rev':
+        names = ['A10|r1', 'A1|r1']
+    elif k == 'multi_ens_word':
+        names = ['ens|r1', 'ensemble|r1']
+    elif k == 'multi_ens_nosuffix':
+        names = ['A1', 'A10']
+    elif k == 'multi_ens_dot':
+        names = ['beta5.3', 'beta5.30']
+    elif k == 'multi_ens_bare_first':
+        names = ['A', 'A2|r1']
+    elif k == 'ok_control_rep10':
+        names = ['A|r1', 'A|r10']
     elif k == 'len_names':
         names = ['A|r1']
     elif k == 'len_idl':
@@ -241,19 +257,22 @@ def check_malformed(ctx, case):
     try:
         with warnings.catch_warnings():
             warnings.simplefilter('ignore')
-            o = cov() if cov else pe.Obs(samples, names, idl=idl)
+            if k == 'merge_multi_ens':
+                o = pe.merge_obs([pe.Obs([x], ['A1']), pe.Obs([x + 1], ['A10'])])
+            else:
+                o = cov() if cov else pe.Obs(samples, names, idl=idl)
         accepted = True
     except Exception:
         accepted = False
         o = None
-    if k == 'ok_control':
+    if k in ('ok_control', 'ok_control_rep10'):
         if not accepted:
             probs.append(('violation', 'rejects-valid-request', ''))
         return probs
     if accepted:
         probs.append(('violation', 'accepts-malformed:' + k, 'request of kind %s was accepted' % k))
     # constructor model: same verdict
-    if ctx.lean is not None and cov is None and k != 'nonstring_name':
+    if ctx.lean is not None and cov is None and k not in ('nonstring_name', 'merge_multi_ens'):
         req = {'op': 'mkobs', 'samples': [[f2b(v) for v in s] for s in samples], 'names': names,
                'idl': None if idl is None else [dump_idl(i) for i in idl]}
         r = ctx.lean.call(req)
